@@ -39,6 +39,17 @@ def install(reg):
         reg.handlers[_nm] = fs_call_may_fail
     reg.import_ok.add("os.makedirs")
 
+    def os_fspath(I, a, k, n):
+        # os.fspath: a str is returned as it is; a Path gives its string
+        v = a[0]
+        if isinstance(v, Str):
+            return v
+        if isinstance(v, Obj) and v.cls == "Path" and isinstance(v.f.get("s"), Str):
+            return v.f["s"]
+        raise Unsupported(f"os.fspath of {type(v).__name__} at line {getattr(n, 'lineno', '?')}")
+    reg.handlers["os.fspath"] = os_fspath
+    reg.import_ok.add("os.fspath")
+
     # multiprocessing.Pool: map / imap return results in the order of the inputs; imap_unordered / map_async(...) do not
     for _nm in ("map", "imap", "imap_unordered", "starmap", "map_async", "apply_async"):
         reg.obj_props[f"Pool.{_nm}"] = (lambda I, o, n, _n=_nm: Fn(lambda I2, a, k, n2: NONE, f"pool.{_n}"))
